@@ -381,8 +381,12 @@ class BaseModel(Generic[MvalT_co], metaclass=ModelsMeta):
 
     def finish(self) -> Self:
         self._check_not_finished()
-        self._complete_frames()
+        # Enforce the access relation before completing the frames, since it
+        # can add a world, which needs a frame like any other.
+        for w in tuple(self.frames):
+            self.R[w]
         self.R.enforce()
+        self._complete_frames()
         self._finished = True
         return self
 
